@@ -8,6 +8,7 @@ import (
 	"context"
 
 	"google.golang.org/grpc/codes"
+	"google.golang.org/protobuf/types/known/timestamppb"
 	"google.golang.org/grpc/status"
 
 	"github.com/buchgr/bazel-remote/v2/cache"
@@ -282,9 +283,17 @@ func VerifUpdateActionResult() {
 	s := vNewServer(c)
 	ar, valid, stdoutLen, fileLen := vUploadedResult(c)
 	worker := ""
-	if ar != nil && vsym.Choose("worker-given", 2) == 1 {
-		worker = "builder-7"
-		ar.ExecutionMetadata = &pb.ExecutedActionMetadata{Worker: worker}
+	otherMeta := false
+	if ar != nil {
+		switch vsym.Choose("worker-given", 3) {
+		case 1:
+			worker = "builder-7"
+			ar.ExecutionMetadata = &pb.ExecutedActionMetadata{Worker: worker}
+		case 2:
+			// metadata without a worker name: only the name is filled in
+			otherMeta = true
+			ar.ExecutionMetadata = &pb.ExecutedActionMetadata{QueuedTimestamp: &timestamppb.Timestamp{Seconds: 1000}}
+		}
 	}
 	req := &pb.UpdateActionResultRequest{ActionDigest: &pb.Digest{Hash: vHashA, SizeBytes: 9}, ActionResult: ar}
 
@@ -304,6 +313,15 @@ func VerifUpdateActionResult() {
 	}
 	vsym.Reach("update-accepted")
 	vCheckStoredResult(c, vHashA, ar, worker, stdoutLen, fileLen)
+	if otherMeta {
+		for _, m := range vmodel.Marshalled {
+			if st, ok := m.Snap.(*pb.ActionResult); ok && st.ExecutionMetadata != nil {
+				qt := st.ExecutionMetadata.QueuedTimestamp
+				vsym.Assert(qt != nil && qt.Seconds == 1000, "ac/C11-uploaded-execution-metadata-kept")
+			}
+		}
+		vsym.Assert(res.ExecutionMetadata != nil && res.ExecutionMetadata.QueuedTimestamp != nil, "ac/C11-returned-execution-metadata-kept")
+	}
 	if stdoutLen > 0 {
 		n, p := vCountPuts(c, cache.CAS, vHashB)
 		ok := n == 1 && p.err == nil && p.size == stdoutLen && p.src == "stdout" && p.contig && p.srcOff == 0
